@@ -21,7 +21,9 @@ RULE = ('histories on the real Bus with raw scripted clients (real handshake and
         'invariants: owner connected, no duplicate or dead queue entries, a released/disconnected client in no queue. '
         'client_flags: DBusClientConnection.requestBusName over all 16 argument combinations x reply codes 1-4: flag word '
         'on the wire = 1*allowReplacement + 2*replaceExisting + 4*doNotQueue and the Deferred fails with '
-        'FailedToAcquireName(code) iff errbackUnlessAcquired and code in {2,3}. Non-trivial = contention (a second '
+        'FailedToAcquireName(code) iff errbackUnlessAcquired and code in {2,3}. client_queries: releaseBusName / '
+        'getNameOwner / listQueuedBusNameOwners put the question to the bus driver with the name as only argument and '
+        'hand the bus answer (reply code, owner, queue) to the caller unchanged. Non-trivial = contention (a second '
         'requester on an owned name) or a release/disconnect with a non-empty queue; distinct = distinct history JSON.')
 ASSUMPTIONS = ['whether a replaced owner is dropped or re-queued is not stated: the model adopts what the next '
                'ListQueuedOwners shows',
@@ -368,6 +370,49 @@ def run_client_flags(case):
     return out
 
 
+def enum_client_queries(tier):
+    for api, member, rsig, rbody in (('releaseBusName', 'ReleaseName', 'u', [1]), ('releaseBusName', 'ReleaseName', 'u', [2]),
+                                     ('releaseBusName', 'ReleaseName', 'u', [3]),
+                                     ('getNameOwner', 'GetNameOwner', 's', [':1.77']),
+                                     ('listQueuedBusNameOwners', 'ListQueuedOwners', 'as', [[':1.5', ':1.9']]),
+                                     ('listQueuedBusNameOwners', 'ListQueuedOwners', 'as', [[]])):
+        for name in ('org.verif.Wanted', 'a.b', ':1.3'):
+            yield {'api': api, 'member': member, 'rsig': rsig, 'rbody': rbody, 'name': name, 'code': rbody[0] if rsig == 'u' else 0}
+
+
+def run_client_queries(case):
+    """The thin client-side wrappers: the question goes to the bus driver with the name as its only argument, and the
+    caller gets the bus's answer (reply code / owner / queue) unchanged."""
+    try:
+        rig = N.ClientRig(unix=False)
+    except N.RigFailure as e:
+        return [Disc('client.establish-failed', str(e))]
+    out = []
+    try:
+        rig.sent_messages()
+        res = []
+        fn = getattr(rig.conn, case['api'], None)
+        if fn is None:
+            return [Disc('client.api-missing:%s' % case['api'], '')]
+        d = fn(case['name'])
+        if not hasattr(d, 'addBoth'):
+            return [Disc('client.query-no-deferred:%s' % case['api'], repr(d))]
+        d.addBoth(res.append)
+        sent = [m for k, m in rig.sent_messages() if k == 'msg']
+        f = sent[0]['fields'] if len(sent) == 1 else {}
+        if len(sent) != 1 or f.get(3) != case['member'] or f.get(2) != 'org.freedesktop.DBus' or \
+                f.get(6) != 'org.freedesktop.DBus' or f.get(1) != '/org/freedesktop/DBus' or sent[0]['body'] != [case['name']]:
+            return [Disc('client.query-call:%s' % case['api'], repr(sent))]
+        N.deliver(rig.conn, R.encode_message(2, 71, {5: sent[0]['serial']}, case['rsig'], case['rbody']))
+        if len(res) != 1 or not R.nf_equal(res[0], case['rbody'][0]):
+            out.append(Disc('client.query-result:%s' % case['api'], 'bus answered %r, caller got %r' % (case['rbody'], res)))
+    except Exception as e:
+        out.append(Disc(exc_key(e, 'client.exception'), exc_detail(e)))
+    finally:
+        rig.close_rig()
+    return out
+
+
 SUBCHECKS = [
     Subcheck('enum', run_history, classify, enumerate=enum_histories, shards={'quick': 16, 'thorough': 16},
              exhaustive_note='every history of length <=3 (quick) / <=4 (thorough) over 3 clients x 1 name x 30 operations'),
@@ -381,4 +426,7 @@ SUBCHECKS = [
     Subcheck('client_flags', run_client_flags, lambda c: (True, ['code%d' % c['code']]), enumerate=enum_client_flags,
              shards={'quick': 1, 'thorough': 1},
              exhaustive_note='16 requestBusName argument combinations x 4 reply codes'),
+    Subcheck('client_queries', run_client_queries, lambda c: (True, [c['api']]), enumerate=enum_client_queries,
+             shards={'quick': 1, 'thorough': 1},
+             exhaustive_note='releaseBusName x 3 reply codes, getNameOwner, listQueuedBusNameOwners (empty / two waiters) x 3 names'),
 ]
